@@ -39,6 +39,13 @@ class RotHooks(Hooks):
             raise Raised(ExcVal(FAILURES[k - 1], ('node failure',)))
         return NotImplemented
 
+    def iterate(self, it, obj, node):
+        # a loop over a number of attempts that depends on the number of nodes: two rounds show whether a request is sent again
+        if isinstance(obj, App) and obj.op in ('range', 'call:range', 'builtin:range'):
+            it.event('loop-over-attempts')
+            return [Sym('attempt0', 'int'), Sym('attempt1', 'int')]
+        return NotImplemented
+
     def compare(self, it, op, a, b, node):
         # the entry assertion `_next_i < len(nodes)` is the class invariant
         if op == '<' and isinstance(a, Sym) and a.name == 'i':
